@@ -12,6 +12,24 @@ NOTE = ("Trusted: TLC and the CommunityModules JSON reader; the projection of ne
         "evidence file on every run.")
 
 CLAIMED = {
+    "C04": ("Every recorded tx.miter result (self, copy, fan-in-limited, mutated and arbitrary pairs from TLC-enumerated G1/G2 and "
+            "random circuits; startpoint/endpoint choices None, all, subsets, singletons) is judged by TLC: inputs = tied "
+            "startpoints, output sat, truth table of sat = union of per-endpoint differences with untied startpoints independent; "
+            "solve(miter, {sat: True}) is judged as in C01.", "6 C04"),
+    "C09": ("Recorded unroll / sequential_unroll results are judged by TLC against iterated execution computed in the specification "
+            "(RunSteps/SeqSteps): io_map node of output o at step t = value after t+1 steps; inputs/outputs exactly as stated; all "
+            "flag combinations and initial-value forms.", "6 C09"),
+    "C10": ("MCTernary: the as-built dual-rail construction equals Kleene evaluation for every G1 gate; recorded ternary() results "
+            "on G1/G2/random circuits are judged by TLC over every (value, X) pattern.", "6 C10"),
+    "C11": ("MCSens: the as-built descending search returns the maximum for every cone size 1..8 and every count profile; recorded "
+            "sensitization_transform, sensitize, sensitivity_transform, sensitivity, influence, avg_sensitivity results are judged by "
+            "TLC from the flip-node / flip-input definitions on truth-table sets.", "6 C11"),
+    "C17": ("Recorded supergates results (list and super-circuit form) are judged by TLC declaratively: single output, induced "
+            "wiring, cover, disjoint input fan-in, order, composition reproduces every output. One open known finding (multi-output "
+            "circuits whose cones share gates).", "6 C17"),
+    "C18": ("Recorded acyclic_unroll results on cyclic circuits are judged by TLC with the all-bits method: acyclic, lint-clean, same "
+            "outputs, and every stable state of the original is reproduced at every output when the auxiliary inputs carry the "
+            "stable values.", "6 C18"),
     "C06": ("Every recorded add_subcircuit / fill_blackbox / strip_blackboxes call (random parents with and without flops, "
             "library and random children incl. nested blackboxes and feed-through pins, every connection choice, repeated "
             "instantiation, fill after add_blackbox) is judged by TLC (JudgeComp): structural clauses plus functional "
